@@ -10,9 +10,11 @@ namespace
 // IS <T> <deco> <eng> <seed> <act>+           std::uniform_int_distribution, tapes on d / w / g
 // RS <ur|no> <T> <deco> <eng> <seed> <act>+   uniform_real / normal
 // acts: n:i:a:b  n2:i:a:b  mk:i:a:b  cc:i:j  ca:i:j  mc:i:j  ma:i:j  sw:i:j  d:i:n[:tape]  r:i  p:i:a:b  e:i:j  q:i
+//       (d1 v1 vm1 vp1 g1: the same with the second generator)
 //       v:k:i  vm:k:i  vp:k:a:b  vc:k:l  va:k:l  vx:k:l  vy:k:l  w:k:n[:tape]  g:n[:tape]
 constexpr std::size_t dist_slots = 4U;
 constexpr std::size_t var_slots = 3U;
+constexpr unsigned second_seed_offset = 1000003U; // seed of the second generator = seed + this (in the engine's result_type)
 
 std::size_t slot_index(std::string const &s, std::size_t const limit)
 {
@@ -72,7 +74,10 @@ std::string run_script(std::vector<std::string> const &t, std::size_t const seed
   static_assert(std::is_same_v<decltype(FG::min()), typename FG::result_type> && FG::min() < FG::max());
   if (t.size() < seed_at + 2U)
     throw bad_op{};
-  FG gen{typename FG::seed{parse_base<typename FG::result_type>(t[seed_at])}};
+  auto const seed0{parse_base<typename FG::result_type>(t[seed_at])};
+  // two generators of the same type: which one a variate refers to is observable
+  FG gen{typename FG::seed{seed0}};
+  FG gen1{typename FG::seed{static_cast<typename FG::result_type>(seed0 + second_seed_offset)}};
   std::array<std::optional<D>, dist_slots> ds;
   std::array<std::optional<V>, var_slots> vs;
   std::string out{"ok"};
@@ -140,18 +145,22 @@ std::string run_script(std::vector<std::string> const &t, std::size_t const seed
         out += std::string{" e="} + (l == r ? "1" : "0") + (l != r ? "1" : "0");
       }
     }
-    else if (name == "d" || name == "w")
+    else if (name == "d" || name == "d1" || name == "w")
     {
       fields(with_tape ? 4U : 3U);
-      bool const direct{name == "d"};
+      bool const direct{name != "w"};
       std::size_t const i{slot_index(f[1], direct ? dist_slots : var_slots)};
       std::size_t const n{count_field(f[2])};
       std::vector<std::string> seq;
-      if (direct)
+      // zero draws do not touch the object (it need not exist): same convention as the model
+      if (n == 0U)
+        ;
+      else if (direct)
       {
         D &d{need(ds[i])};
+        FG &g{name == "d" ? gen : gen1};
         for (std::size_t k = 0; k < n; ++k)
-          seq.push_back(sh::print(d(gen)));
+          seq.push_back(sh::print(d(g)));
       }
       else
       {
@@ -186,22 +195,23 @@ std::string run_script(std::vector<std::string> const &t, std::size_t const seed
                sh::inner(K::second(d.distribution())) + "/" + text;
       }
     }
-    else if (name == "v" || name == "vm")
+    else if (name == "v" || name == "vm" || name == "v1" || name == "vm1")
     {
       fields(3U);
       std::size_t const k{slot_index(f[1], var_slots)}, i{slot_index(f[2], dist_slots)};
       D const &d{need(ds[i])};
-      if (name == "v")
-        vs[k].emplace(fcppt::make_ref(gen), d);
+      FG &g{name == "v" || name == "vm" ? gen : gen1};
+      if (name == "v" || name == "v1")
+        vs[k].emplace(fcppt::make_ref(g), d);
       else
-        vs[k].emplace(fcppt::random::make_variate(fcppt::make_ref(gen), d));
+        vs[k].emplace(fcppt::random::make_variate(fcppt::make_ref(g), d));
     }
-    else if (name == "vp")
+    else if (name == "vp" || name == "vp1")
     {
       fields(4U);
       std::size_t const k{slot_index(f[1], var_slots)};
       P const p{params(f[2], f[3])};
-      vs[k].emplace(fcppt::make_ref(gen), p);
+      vs[k].emplace(fcppt::make_ref(name == "vp" ? gen : gen1), p);
     }
     else if (name == "vc" || name == "va" || name == "vx" || name == "vy")
     {
@@ -224,14 +234,15 @@ std::string run_script(std::vector<std::string> const &t, std::size_t const seed
       else
         need(vs[k]) = std::move(need(vs[l]));
     }
-    else if (name == "g")
+    else if (name == "g" || name == "g1")
     {
       fields(with_tape ? 3U : 2U);
       std::size_t const n{count_field(f[1])};
+      FG &g{name == "g" ? gen : gen1};
       std::vector<std::string> seq;
       for (std::size_t k = 0; k < n; ++k)
-        seq.push_back(std::to_string(gen()));
-      out += " g=" + join_str(seq);
+        seq.push_back(std::to_string(g()));
+      out += " " + name + "=" + join_str(seq);
     }
     else
       throw bad_op{};
@@ -247,9 +258,11 @@ std::string run_script_std(std::vector<std::string> const &t, std::size_t const 
   using SP = typename SD::param_type;
   if (t.size() < seed_at + 2U)
     throw bad_op{};
-  Eng eng{parse_base<typename Eng::result_type>(t[seed_at])};
+  auto const seed0{parse_base<typename Eng::result_type>(t[seed_at])};
+  Eng eng{seed0};
+  Eng eng1{static_cast<typename Eng::result_type>(seed0 + second_seed_offset)};
   std::array<std::optional<SD>, dist_slots> ds;
-  std::array<std::optional<SD>, var_slots> vs;
+  std::array<std::optional<std::pair<SD, Eng *>>, var_slots> vs; // a "variate": a distribution and the engine it is used with
   std::string out{"T"};
   for (std::size_t at = seed_at + 1U; at < t.size(); ++at)
   {
@@ -297,16 +310,20 @@ std::string run_script_std(std::vector<std::string> const &t, std::size_t const 
         need(ds[j]);
       }
     }
-    else if (name == "d" || name == "w")
+    else if (name == "d" || name == "d1" || name == "w")
     {
       fields(3U);
-      bool const direct{name == "d"};
+      bool const direct{name != "w"};
       std::size_t const i{slot_index(f[1], direct ? dist_slots : var_slots)};
       std::size_t const n{count_field(f[2])};
-      SD &d{direct ? need(ds[i]) : need(vs[i])};
       std::vector<std::string> seq;
-      for (std::size_t k = 0; k < n; ++k)
-        seq.push_back(shape<B>::inner(d(eng)));
+      if (n != 0U)
+      {
+        SD &d{direct ? need(ds[i]) : need(vs[i]).first};
+        Eng &e{direct ? (name == "d" ? eng : eng1) : *need(vs[i]).second};
+        for (std::size_t k = 0; k < n; ++k)
+          seq.push_back(shape<B>::inner(d(e)));
+      }
       out += "|" + join_str(seq);
     }
     else if (name == "r" || name == "q")
@@ -318,18 +335,18 @@ std::string run_script_std(std::vector<std::string> const &t, std::size_t const 
       else
         need(ds[i]);
     }
-    else if (name == "v" || name == "vm")
+    else if (name == "v" || name == "vm" || name == "v1" || name == "vm1")
     {
       fields(3U);
       std::size_t const k{slot_index(f[1], var_slots)}, i{slot_index(f[2], dist_slots)};
       SD const copy{need(ds[i])};
-      vs[k].emplace(copy);
+      vs[k].emplace(copy, name == "v" || name == "vm" ? &eng : &eng1);
     }
-    else if (name == "vp")
+    else if (name == "vp" || name == "vp1")
     {
       fields(4U);
       std::size_t const k{slot_index(f[1], var_slots)};
-      vs[k].emplace(SP{parse_base<B>(f[2]), parse_base<B>(f[3])});
+      vs[k].emplace(SD{SP{parse_base<B>(f[2]), parse_base<B>(f[3])}}, name == "vp" ? &eng : &eng1);
     }
     else if (name == "vc" || name == "va" || name == "vx" || name == "vy")
     {
@@ -337,19 +354,20 @@ std::string run_script_std(std::vector<std::string> const &t, std::size_t const 
       std::size_t const k{slot_index(f[1], var_slots)}, l{slot_index(f[2], var_slots)};
       if (name != "va" && k == l)
         throw bad_op{};
-      SD const copy{need(vs[l])};
+      std::pair<SD, Eng *> const copy{need(vs[l])};
       if (name == "vc" || name == "vx")
         vs[k].emplace(copy);
       else
         need(vs[k]) = copy;
     }
-    else if (name == "g")
+    else if (name == "g" || name == "g1")
     {
       fields(2U);
       std::size_t const n{count_field(f[1])};
+      Eng &e{name == "g" ? eng : eng1};
       std::vector<std::string> seq;
       for (std::size_t k = 0; k < n; ++k)
-        seq.push_back(std::to_string(eng()));
+        seq.push_back(std::to_string(e()));
       out += "|" + join_str(seq);
     }
     else
@@ -549,11 +567,10 @@ std::string run_cscript(std::vector<std::string> const &t)
       fields(3U);
       std::size_t const i{slot_index(f[1], slots)};
       std::size_t const n{count_field(f[2])};
-      U &u{need(us[i])};
       std::vector<std::string> seq;
       for (std::size_t k = 0; k < n; ++k)
       {
-        auto &r{u(gen)};
+        auto &r{need(us[i])(gen)};
         seq.push_back(std::to_string(r) + "@" + std::to_string(index_of(storage, r)));
       }
       out += " d=" + join_str(seq);
